@@ -28,6 +28,11 @@ TEXTS = {
     "C13": {"technique": "TLA+ re-implementation of the reward accumulator (claimable per pool/denom/account in Dec mantissas) as invariant + step contracts, TLC trace validation",
             "level": _lvl("C13: module balance >= sum of floor(claimable) for every bank-backed reward denom at every observation; only end-block distribution changes anybody's claimable (a new committer earns nothing retroactively); per block the total newly credited <= what moved into the module plus the pre-funded external-incentive amount of that block; a claim always succeeds and pays exactly the credited integer amount."),
             "note": _TB},
+    "C14": {"technique": "deterministic TLA+ specification of the vesting sub-machine (post-state = function of pre-state and message), exhaustive TLC model + TLC-simulated behaviours replayed on the real chain, TLC trace validation of exact post-state equality",
+            "level": "spec/elys/Vesting.tla defines vest / claim / cancel / vest-now as functions on the vesting list; spec/mc/MC_vesting.tla executes them over small integers and TLC checks exhaustively (about 5e5 states, depth 6-7) that cumulative release per entry is monotone, never above the total, equal to the total once the schedule has elapsed, and that released + returned + outstanding = vested. "
+                     "Every model behaviour up to depth 4 (95 393 of them, seeded sample in the quick tier), TLC-simulated behaviours of length 10-14 and long weighted walks (two accounts, claim-cancel-claim corners, governance changes of schedule length incl. 0 and of the maximum) are replayed on the REAL ElysApp through FinalizeBlock/Commit; "
+                     "TLC then checks on every observed step that the stored vesting list, the claimable Eden and the bank balances after the step EQUAL the specification's function of the state before it, that a claim whose messages ran always succeeds, and that nobody else's entries change.",
+            "note": _TB},
     "C08": {"technique": "TLA+ state invariants over leveraged-LP positions + close step contract, TLC trace validation",
             "level": _lvl("C08 is the invariant pool.LeveragedLpAmount = sum of position LP amounts, position LP = shares committed at the position address, open counter = stored positions, nothing left committed at the address of a removed position; checked after every begin-block sweep, transaction and end-block of histories with opens, consolidations, partial/full closes, bot MsgClosePositions and price moves."),
             "note": _TB},
